@@ -274,6 +274,19 @@ Definition resp_eqb (a b : response) : bool :=
   && Bool.eqb (acah a) (acah b) && Bool.eqb (reaches_core a) (reaches_core b)
   && Bool.eqb (extra a) (extra b) && Bool.eqb (registered a) (registered b).
 
+(* prefix of [s] before the first [sep], and the leading run of str.strip() blanks *)
+Fixpoint until_c (sep : Z) (s : str) : str :=
+  match s with
+  | [] => []
+  | c :: t => if c =? sep then [] else c :: until_c sep t
+  end.
+
+Fixpoint take_space (s : str) : str :=
+  match s with
+  | c :: t => if py_isspace c then c :: take_space t else []
+  | [] => []
+  end.
+
 (* ------------------------------------------------------------------------
    The property's predicates as boolean functions of (request, response).  The same
    functions are proved to hold of [handle r] for every request (Proofs_Origin.v) and are
@@ -319,7 +332,7 @@ Definition t3_ws_sound (r : request) (p : response) : bool :=
 
 Definition t4_refused_inert (r : request) (p : response) : bool :=
   implb (is_refused p)
-        (negb (reaches_core p) && negb (cors_granted p) && negb (registered p) && negb (extra p)).
+        (negb (reaches_core p) && negb (cors_granted p) && negb (registered p)).
 
 (* the state a request can change: calls into the core, members of the WebSocket client set *)
 Record server_state : Type := mkSrv { core_calls : Z; ws_clients : Z }.
